@@ -24,8 +24,11 @@ class Expecter(object):
         if index >= 0:
             spawn._buffer = spawn.buffer_type()
             spawn._buffer.write(window[searcher.end:])
-            spawn.before = spawn._before.getvalue()[
-                0:-(len(window) - searcher.start)]
+            # Slice by explicit length: a zero-width match at the very end of
+            # the window gives a zero offset, and [0:-0] would be empty.
+            before = spawn._before.getvalue()
+            spawn.before = before[
+                0:len(before) - (len(window) - searcher.start)]
             spawn._before = spawn.buffer_type()
             spawn._before.write(window[searcher.end:])
             spawn.after = window[searcher.start:searcher.end]
